@@ -1537,3 +1537,134 @@ Proof.
   split; [exact H1|]. intros v Hrow.
   rewrite (lget_filter (fun k => has_user (observe t') k)); [apply H1; exact Hrow|exact Hrow].
 Qed.
+
+(* Side conditions of a step (hypotheses of the trace-level theorem; see add_bal, connect_bal):
+   - OAdd by u: the `as u32` cast of add_update_appointment does not wrap (balance below 2^32);
+   - OConnect: connect_side (consistent chain, carrier memo without ConfirmedIn);
+   - ODisconnect: the responder's index is not empty.  On an empty index the model's step does nothing
+     while TowerMon.mon_step still decrements m_height: the monitor's height and the tower's then differ
+     and `completing` is evaluated at the wrong height from there on. *)
+Definition step_side (t : tower) (o : op) : Prop :=
+  match o with
+  | OAdd signer _ _ _ _ => match signer with Some u => bal t u < U32MOD | None => True end
+  | OConnect _ txs => connect_side t txs
+  | ODisconnect => last_hash t <> None
+  | _ => True
+  end.
+
+Definition next_m (c : config) (m : mstate) (t : tower) (o : op) (sc : script) (x : out) (t' : tower) : mstate :=
+  snd (mon_step c m (observe t) o sc x (rpcs_of t') (observe t')).
+
+Lemma mon_step_ledger c m pre o sc x rpcs post :
+  m_ledger (snd (mon_step c m pre o sc x rpcs post)) =
+  match o, x with
+  | OConnect _ _, OBlockRes => filter (fun e => has_user post (fst e)) (ledger_step c m pre o x post)
+  | _, _ => ledger_step c m pre o x post
+  end.
+Proof. unfold mon_step, mon_C07. destruct (mon_C08 m pre o sc x post) as [f8 last]. destruct o, x; reflexivity. Qed.
+
+Lemma mon_step_height c m pre o sc x rpcs post :
+  m_height (snd (mon_step c m pre o sc x rpcs post)) =
+  match o, x with
+  | OConnect _ _, OBlockRes => m_height m + 1
+  | ODisconnect, OBlockRes => m_height m - 1
+  | _, _ => m_height m
+  end.
+Proof. unfold mon_step, mon_C07. destruct (mon_C08 m pre o sc x post) as [f8 last]. destruct o, x; reflexivity. Qed.
+
+(* the conservation check of mon_C07 is part of what mon_step reports *)
+Lemma mon_step_reports_conservation c m pre o sc x rpcs post :
+  conservation_ok (ledger_step c m pre o x post) post = false -> In 7 (fst (mon_step c m pre o sc x rpcs post)).
+Proof.
+  intros H. unfold mon_step. destruct (mon_C07_conservation c m pre o x post) as [rest Hr].
+  destruct (mon_C07 c m pre o x post) as [f7 led]. destruct (mon_C08 m pre o sc x post) as [f8 last].
+  cbn [fst] in *. subst f7. rewrite H. cbn [chk].
+  do 4 (apply in_or_app; right). apply in_or_app; left. left. reflexivity.
+Qed.
+
+Lemma mon_step_sound le c t m o sc t' x :
+  Inv t -> cfg t = c -> m_height m = gk_height t -> Led t (m_ledger m) -> step_side t o ->
+  step le t o sc = (t', x) -> not_abort x ->
+  Led t' (ledger_step c m (observe t) o x (observe t')) /\
+  Led t' (m_ledger (next_m c m t o sc x t')) /\
+  m_height (next_m c m t o sc x t') = gk_height t'.
+Proof.
+  intros HI Hc Hh HL Hside Hstep Hna. unfold next_m. rewrite mon_step_ledger, mon_step_height.
+  pose proof (step_out_shape le t o sc t' x Hstep) as Hshape.
+  destruct o as [u|signer loc b delay sig|signer loc|signer|hash txs|]; destruct x as [r|r|r|r| |s]; try contradiction.
+  - pose proof (led_register le c t m u sc t' r HI Hc HL Hstep) as H1.
+    split; [exact H1|]. split; [exact H1|]. rewrite (register_height le t u sc t' _ Hstep). exact Hh.
+  - pose proof (led_add le c t m signer loc b delay sig sc t' r HI HL Hside Hstep) as H1.
+    split; [exact H1|]. split; [exact H1|]. rewrite (add_height le t signer loc b delay sig sc t' r Hstep). exact Hh.
+  - pose proof (get_bal le t signer loc sc t' _ Hstep) as Hs.
+    destruct (get_unchanged le t sc signer loc) as [r' Hr']. rewrite Hr' in Hstep. inversion Hstep; subst.
+    cbn [ledger_step]. split; [apply (Led_same t (fresh t)); assumption|]. split; [apply (Led_same t (fresh t)); assumption|exact Hh].
+  - pose proof (getsub_bal le t signer sc t' _ Hstep) as Hs.
+    destruct (getsub_unchanged le t sc signer) as [r' Hr']. rewrite Hr' in Hstep. inversion Hstep; subst.
+    cbn [ledger_step]. split; [apply (Led_same t (fresh t)); assumption|]. split; [apply (Led_same t (fresh t)); assumption|exact Hh].
+  - destruct (led_connect le c t m hash txs sc t' HI Hh HL Hside Hstep) as [H1 H2].
+    split; [exact H1|]. split; [exact H2|]. rewrite (connect_height le t hash txs sc t' Hstep), Hh. reflexivity.
+  - pose proof (disconnect_bal le t sc t' _ Hstep) as Hs. cbn [ledger_step].
+    split; [apply (Led_same t t'); assumption|]. split; [apply (Led_same t t'); assumption|].
+    rewrite (disconnect_height le t sc t' Hside Hstep), Hh. reflexivity.
+Qed.
+
+(* the conservation check along a history, with the monitor state threaded by mon_step itself *)
+Definition is_abort (x : out) : bool := match x with OAbort _ => true | _ => false end.
+
+Fixpoint c07_run (le : bool) (c : config) (t : tower) (m : mstate) (h : list (op * script)) : list bool :=
+  match h with
+  | [] => []
+  | (o, sc) :: r =>
+      let '(t1, x) := step le t o sc in
+      conservation_ok (ledger_step c m (observe t) o x (observe t1)) (observe t1)
+      :: (if is_abort x then [] else c07_run le c t1 (next_m c m t o sc x t1) r)
+  end.
+
+Fixpoint run_side (le : bool) (t : tower) (h : list (op * script)) : Prop :=
+  match h with
+  | [] => True
+  | (o, sc) :: r => step_side t o /\ run_side le (fst (step le t o sc)) r
+  end.
+
+Lemma run_no_abort_inv le t o sc r t1 x :
+  step le t o sc = (t1, x) -> Forall not_abort (snd (run le t ((o, sc) :: r))) ->
+  not_abort x /\ is_abort x = false /\ Forall not_abort (snd (run le t1 r)).
+Proof.
+  intros Es. cbn [run]. rewrite Es.
+  destruct x; try (destruct (run le t1 r) as [t2 xs]; cbn [snd]; intros H; inversion H; subst; repeat split; assumption).
+  cbn [snd]. intros H; inversion H; subst. contradiction.
+Qed.
+
+Theorem ledger_conserved_from le c : forall h t m,
+  Inv t -> cfg t = c -> m_height m = gk_height t -> Led t (m_ledger m) ->
+  run_side le t h -> Forall not_abort (snd (run le t h)) ->
+  Forall (fun ok => ok = true) (c07_run le c t m h).
+Proof.
+  induction h as [|[o sc] h IH]; intros t m HI Hc Hh HL Hside Hna; [constructor|].
+  cbn [c07_run]. cbn [run_side] in Hside. destruct Hside as [Hs1 Hs2].
+  destruct (step le t o sc) as [t1 x] eqn:Es. cbn [fst] in Hs2.
+  destruct (run_no_abort_inv le t o sc h t1 x Es Hna) as [Hx [Hxa Hna1]].
+  destruct (mon_step_sound le c t m o sc t1 x HI Hc Hh HL Hs1 Es Hx) as [L1 [L2 L3]].
+  assert (HI1 : Inv t1).
+  { pose proof (step_pres Inv inv_stable le t o sc HI) as Hp. rewrite Es in Hp. apply Hp. exact Hx. }
+  assert (Hc1 : cfg t1 = c).
+  { pose proof (step_cfg le t o sc) as Hp. rewrite Es in Hp. cbn [fst snd] in Hp. rewrite (Hp Hx). exact Hc. }
+  constructor.
+  - apply Led_conservation; assumption.
+  - rewrite Hxa. apply IH; assumption.
+Qed.
+
+(* THE PROPERTY (C07, conservation): from bootstrap, along every history in which no step aborted and the
+   side conditions hold, the conservation check of TowerMon.mon_C07, evaluated on the model's own
+   observations with the ghost ledger threaded by TowerMon.mon_step, passes after every step. *)
+Theorem ledger_conserved le c h0 blocks t0 h :
+  init c h0 blocks = Some t0 -> run_side le t0 h -> Forall not_abort (snd (run le t0 h)) ->
+  Forall (fun ok => ok = true) (c07_run le c t0 (m_init h0) h).
+Proof.
+  intros Hi Hside Hna. pose proof (inv_init c h0 blocks t0 Hi) as HI.
+  unfold init in Hi. destruct (ti_new _ _); [|discriminate]. destruct (ti_new _ _); [|discriminate].
+  inversion Hi; subst t0; clear Hi.
+  apply ledger_conserved_from; try assumption; try reflexivity.
+  intros v Hrow. discriminate.
+Qed.
